@@ -36,6 +36,24 @@ Failures(T) ==
        \cup Fail("C11", "GapIsGapOfStartingKnowledgePlusSet",
                  Len(T.vals) = Len(T.seqs) /\ \A i \in 1..Len(T.seqs) : InIv(GapOf(cfg, K0, AsSet(T.seqs[i]) \cap U, hid), T.vals[i]))
        \cup Fail("C11", "IndependentOfWorkerProcessCount", T.same_p1 # 0))
+    [] T.kind = "sample" ->
+         \* T.games[i] is the game of sample i; T.rows[i][j] the gap reported for reveal set T.seqs[j] on it
+            Fail("C11", "NoException", T.exc = "")
+       \cup (IF T.exc # "" THEN {} ELSE
+            Fail("C11", "SampledEveryRevealSetExactlyOnce",
+                 /\ Len(T.seqs) = Cardinality(RevealSets(U, T.k))
+                 /\ {AsSet(T.seqs[i]) : i \in 1..Len(T.seqs)} = RevealSets(U, T.k)
+                 /\ \A i \in 1..Len(T.seqs) : NoDup(T.seqs[i]))
+       \cup Fail("C11", "OneFreshGamePerSample", T.same_p1 = 1 /\ Len(T.rows) = T.max_steps)
+       \cup Fail("C11", "SampleRowIsGapOnThatSamplesGame",
+                 \A i \in 1..Len(T.rows) : Len(T.rows[i]) = Len(T.seqs) /\
+                     \A j \in 1..Len(T.seqs) : InIv(GapOf(cfg, K0, AsSet(T.seqs[j]) \cap U, Arr(T.games[i])), T.rows[i][j])))
+    [] T.kind = "stacked" ->
+            Fail("C11", "NoException", T.exc = "")
+       \cup (IF T.exc # "" THEN {} ELSE
+            Fail("C11", "StackedRowIsGapOfSequencePerGame",
+                 Len(T.rows) = Len(T.seqs) /\ \A i \in 1..Len(T.seqs) : Len(T.rows[i]) = Len(T.games) /\
+                     \A j \in 1..Len(T.games) : InIv(GapOf(cfg, K0, AsSet(T.seqs[i]) \cap U, Arr(T.games[j])), T.rows[i][j])))
     [] T.kind = "meta" ->
          LET hid == Arr(T.hid) IN
             Fail("C11", "NoException", T.exc = "")
